@@ -83,8 +83,7 @@ def pinned_hooks(chk):
 def run_conform(chk, pairs, maxlen, timeout, label):
     reports, st, cases = conform.explore(pairs, maxlen=maxlen, timeout=timeout)
     for e in st['errors']:
-        if 'timeout' not in str(e):
-            chk.machinery_error('TLC(Conform %s): %s' % (label, str(e)[:1500]))
+        chk.machinery_error('TLC(Conform %s): %s' % (label, str(e)[:1500]))
     kinds = collections.Counter()
     nviol = 0
     for (p, ast), reps in zip(pairs, reports):
@@ -114,7 +113,7 @@ def run(tier, seed):
     items, asts = gen_items(rng, 140 if quick else 1200, FEATURES | {'yield', 'end'})
     progs = runner.compile_programs(items, want=('machine', 'codegen'))
     pairs = [(p, a) for p, a in zip(progs, asts) if p.ok]
-    st, kinds, cases = run_conform(chk, pairs, 10 if quick else 14, 420 if quick else 3000, 'generated')
+    st, kinds, cases = run_conform(chk, pairs, 10 if quick else 14, 1600 if quick else 9000, 'generated')
     sample = []
     for c in cases[:2]:
         sample.append({'program': c['p'].name, 'args': c['p'].args, 'source': c['p'].src, 'symbols': c['syms'], 'max_input_length': c['maxlen']})
